@@ -60,7 +60,12 @@ class StructModel(types.ModuleType):
 
 
 class Lower(ast.NodeTransformer):
-    """AST lowering: b"..".join(x)  ->  sx_bjoin_(b"..", x)"""
+    """AST lowering (semantics-preserving for concrete values):
+         b"..".join(x)   ->  sx_bjoin_(b"..", x)
+         a in c / not in ->  sx_in_(a, c)          (equality scan for symbolic a)
+         c[k]  (load)    ->  sx_getitem_(c, k)     (equality scan for symbolic int k on dicts)
+         o.get(...)      ->  sx_get_(o, ...)       (same)
+    """
 
     def __init__(self):
         self.count = 0
@@ -74,7 +79,43 @@ class Lower(ast.NodeTransformer):
                 ast.Call(func=ast.Name(id="sx_bjoin_", ctx=ast.Load()), args=[f.value] + node.args, keywords=[]),
                 node,
             )
+        if isinstance(f, ast.Attribute) and f.attr == "get" and not any(isinstance(a, ast.Starred) for a in node.args):
+            return ast.copy_location(
+                ast.Call(func=ast.Name(id="sx_get_", ctx=ast.Load()), args=[f.value] + node.args, keywords=node.keywords),
+                node,
+            )
         return node
+
+    def visit_Compare(self, node):
+        self.generic_visit(node)
+        if len(node.ops) == 1 and isinstance(node.ops[0], (ast.In, ast.NotIn)):
+            call = ast.Call(func=ast.Name(id="sx_in_", ctx=ast.Load()), args=[node.left, node.comparators[0]], keywords=[])
+            if isinstance(node.ops[0], ast.NotIn):
+                call = ast.UnaryOp(op=ast.Not(), operand=call)
+            return ast.copy_location(call, node)
+        return node
+
+    def visit_Subscript(self, node):
+        self.generic_visit(node)
+        if isinstance(node.ctx, ast.Load) and not isinstance(node.slice, (ast.Slice, ast.Tuple)):
+            return ast.copy_location(
+                ast.Call(func=ast.Name(id="sx_getitem_", ctx=ast.Load()), args=[node.value, node.slice], keywords=[]),
+                node,
+            )
+        return node
+
+    def visit_AnnAssign(self, node):
+        # annotations are not code: leave them alone
+        if node.value is not None:
+            node.value = self.visit(node.value)
+        return node
+
+    def visit_FunctionDef(self, node):
+        node.body = [self.visit(b) for b in node.body]
+        node.decorator_list = [self.visit(d) for d in node.decorator_list]
+        return node
+
+    visit_AsyncFunctionDef = visit_FunctionDef
 
 
 def _purge():
@@ -103,7 +144,7 @@ def load_symbolic():
             mod = types.ModuleType("someip." + name)
             mod.__file__ = path
             mod.__package__ = "someip"
-            mod.__dict__.update(bytearray=symbytes.bytearray_, sx_bjoin_=symbytes.bjoin)
+            mod.__dict__.update(bytearray=symbytes.bytearray_, sx_bjoin_=symbytes.bjoin, sx_in_=symbytes.sx_in, sx_getitem_=symbytes.sx_getitem, sx_get_=symbytes.sx_get)
             sys.modules["someip." + name] = mod
             setattr(pkg, name, mod)
             exec(compile(tree, path, "exec"), mod.__dict__)
